@@ -81,7 +81,10 @@ def handleSnap (j : Json) : Except String Json := do
   let a ← j.getObjVal? "app"
   let app : AppCfg := ⟨← getStr a "root", ← strList (← a.getObjVal? "incl"), ← strList (← a.getObjVal? "excl")⟩
   let stack ← (← getArr j "stack").toList.mapM (fun f => do
-    pure (RawFrame.mk (← getStr f "file") (← getStr f "func") (← getInt f "line") (← getNat f "locals")))
+    let cls ← (← getArr f "classes").toList.mapM (fun c => do
+      let a ← c.getArr?
+      pure (← a[0]!.getStr?, (match a[1]! with | .str n => some n | _ => none)))
+    pure (RawFrame.mk (← getStr f "file") (← getStr f "func") (← getInt f "line") (← getNat f "locals") cls))
   let evals ← (← getArr j "evals").toList.mapM (fun r => do
     let a ← r.getArr?
     pure (← a[0]!.getStr?, ← natList a[1]!))
